@@ -235,6 +235,53 @@ func c13Relations() []c13Rel {
 			got, err := gojson.MarshalWithOption(x, gojson.Debug(), gojson.DebugWith(&sink))
 			return got, plain, err, false
 		}, false},
+		// Debug selects a second dispatch (DebugRun) in front of each of the four interpreters
+		{"strip(Debug+Colorize(markers))=plain", func(x any, plain []byte, k int) ([]byte, []byte, error, bool) {
+			var sink bytes.Buffer
+			got, err := gojson.MarshalWithOption(x, gojson.Debug(), gojson.DebugWith(&sink), gojson.Colorize(scheme))
+			return stripMarks(got, marks), plain, err, false
+		}, false},
+		{"Debug+Indent=MarshalIndent", func(x any, plain []byte, k int) ([]byte, []byte, error, bool) {
+			pi := c13Indents[k%len(c13Indents)]
+			want, e := gojson.MarshalIndent(x, pi[0], pi[1])
+			if e != nil {
+				return nil, nil, nil, true
+			}
+			var sink bytes.Buffer
+			got, err := gojson.MarshalIndentWithOption(x, pi[0], pi[1], gojson.Debug(), gojson.DebugWith(&sink))
+			return got, want, err, false
+		}, false},
+		{"strip(Debug+ColorizeIndent(markers))=MarshalIndent", func(x any, plain []byte, k int) ([]byte, []byte, error, bool) {
+			want, e := gojson.MarshalIndent(x, "", " ")
+			if e != nil {
+				return nil, nil, nil, true
+			}
+			var sink bytes.Buffer
+			got, err := gojson.MarshalIndentWithOption(x, "", " ", gojson.Colorize(scheme), gojson.Debug(), gojson.DebugWith(&sink))
+			return stripMarks(got, marks), want, err, false
+		}, false},
+		{"Encoder(SetIndent).EncodeWithOption(Debug)=MarshalIndent+LF", func(x any, plain []byte, k int) ([]byte, []byte, error, bool) {
+			want, e := gojson.MarshalIndent(x, "", "\t")
+			if e != nil {
+				return nil, nil, nil, true
+			}
+			var b, sink bytes.Buffer
+			enc := gojson.NewEncoder(&b)
+			enc.SetIndent("", "\t")
+			err := enc.EncodeWithOption(x, gojson.Debug(), gojson.DebugWith(&sink))
+			return b.Bytes(), append(want, '\n'), err, false
+		}, false},
+		{"Encoder(SetIndent).EncodeWithOption(Debug,Colorize(empty))=MarshalIndent+LF", func(x any, plain []byte, k int) ([]byte, []byte, error, bool) {
+			want, e := gojson.MarshalIndent(x, "", "  ")
+			if e != nil {
+				return nil, nil, nil, true
+			}
+			var b, sink bytes.Buffer
+			enc := gojson.NewEncoder(&b)
+			enc.SetIndent("", "  ")
+			err := enc.EncodeWithOption(x, gojson.Colorize(&gojson.ColorScheme{}), gojson.Debug(), gojson.DebugWith(&sink))
+			return b.Bytes(), append(want, '\n'), err, false
+		}, false},
 	}
 }
 
